@@ -419,6 +419,15 @@ func c19Builtin(p *Program, r *Report) {
 	c19Keys(p, r, lits["keys"])
 	c19ImportFresh(p, r)
 	c19LenIsLen(p, r)
+	// R14: a builtin that tells numeric kinds apart by a kind switch has an arm for every kind of a class it has arms for
+	// (today the conversions go through reflect's ConvertibleTo and there is no such switch: the rule arms itself when one appears)
+	r.Explain("R14 a kind switch in a builtin that has arms for most kinds of a numeric class (signed, unsigned, float) has arms for all of them.")
+	if csp := p.SSAPkg("core"); csp != nil {
+		n := kindSwitchesComplete(p, r, SrcFuncs(csp), "C19.R14")
+		if n == 0 {
+			r.OK("C19.R14", "core|no kind switch over a numeric class", "core", "the numeric conversions of the builtins go through reflect's ConvertibleTo / Convert")
+		}
+	}
 	c19Describes(p, r, "typeOf", lits["typeOf"], false)
 	c19Describes(p, r, "kindOf", lits["kindOf"], true)
 	var toSlice *ssa.Function
